@@ -17,7 +17,10 @@ RULE = ("T1: the registry of built-in function objects (7 modules, every global 
         "global/module pair, argument tuples generated per parameter type (colors, numbers with units, lists, maps, "
         "strings incl. non-ASCII, selectors, indices, booleans, null; optional parameters present or absent), each "
         "evaluated in up to 8 forms: global/module x positional/named(shuffled)/mixed, and "
-        "meta.call(meta.get-function(..)) for both names; results compared through meta.inspect; "
+        "meta.call(meta.get-function(..)) for both names; plus a shadowed-name stratum: in scopes where an unqualified name "
+        "is shadowed (`@use \"sass:<m>\" as *` for members colliding with a global of different meaning — string.length/"
+        "index, selector.append, math.round/abs/max/min, color.grayscale — or a user @function of the same name) the direct "
+        "call name(args) vs meta.call(meta.get-function(name), args), positional and named; results compared through meta.inspect; "
         "non-trivial = all forms returned a value")
 TRUSTED = ["harness op fnreg/fnsame (uses Function::get_builtin, get_global_module, Scope::functions_map and `==`)",
            "candidate global names = every name!(..)/def!(..) identifier in rsass/src/sass/functions/**/*.rs",
@@ -224,6 +227,8 @@ GEN = {
 
 def src_of(expr, wrap=None):
     body = f"a{{b:meta.inspect({expr})}}"
+    if isinstance(wrap, tuple):      # ("shadow", prelude): a scope in which a global name is shadowed
+        return '@use "sass:meta";' + wrap[1] + body
     if wrap == "mixin-block":
         body = f"@mixin m{{{body}}}@include m{{c:d}}"
     elif wrap == "mixin-noblock":
@@ -288,7 +293,49 @@ def forms(p, r):
     return out
 
 
+# scopes in which an unqualified name does NOT mean the global built-in: `@use "sass:<m>" as *` for module members that
+# collide with a global name of different meaning, and user-defined functions named like a built-in.
+# (global name, module, module function, prelude, params, va type)
+SHADOWS = [
+    ("length", "string", "length", '@use "sass:string" as *;', [("string", "str")], None),
+    ("index", "string", "index", '@use "sass:string" as *;', [("string", "str"), ("substring", "str")], None),
+    ("append", "selector", "append", '@use "sass:selector" as *;', [], "selsfx"),
+    ("round", "math", "round", '@use "sass:math" as *;', [("number", "num")], None),
+    ("abs", "math", "abs", '@use "sass:math" as *;', [("number", "num")], None),
+    ("max", "math", "max", '@use "sass:math" as *;', [], "num"),
+    ("min", "math", "min", '@use "sass:math" as *;', [], "num"),
+    ("grayscale", "color", "grayscale", '@use "sass:color" as *;', [("color", "color")], None),
+    ("length", "list", "length", "@function length($list){@return 42}", [("list", "list")], None),
+    ("nth", "list", "nth", "@function nth($list, $n){@return $n}", [("list", "list"), ("n", "idx")], None),
+    ("percentage", "math", "percentage", "@function percentage($number){@return $number}", [("number", "plain")], None),
+    ("str-length", "string", "length", "@function str-length($string){@return 42}", [("string", "str")], None),
+    ("map-get", "map", "get", "@function map-get($map, $key){@return $key}", [("map", "map"), ("key", "key")], None),
+    ("length", "list", "length", '@use "sass:string" as *;@function length($x){@return 7}', [("x", "any")], None),
+]
+
+
+def shadow_forms(sh, r):
+    g, _, _, pre, params, va = sh
+    vals = [GEN[t](r) for _, t in params]
+    extra = [GEN[va](r) for _ in range(r.randint(1, 3))] if va else []
+    pos = ", ".join(vals + extra)
+    w = ("shadow", pre)
+    out = [("s-direct-pos", f"{g}({pos})", w), ("s-call-pos", f'meta.call(meta.get-function("{g}"), {pos})', w)]
+    if params and not va:
+        named = [f"${n}: {v}" for (n, _), v in zip(params, vals)]
+        r.shuffle(named)
+        nm = ", ".join(named)
+        out += [("s-direct-named", f"{g}({nm})", w), ("s-call-named", f'meta.call(meta.get-function("{g}"), {nm})', w)]
+    return out
+
+
 def gen(tier, rng, boost=1):
+    for sh in SHADOWS:
+        for _ in range((12 if tier == "quick" else 150) * boost):
+            fs = shadow_forms(sh, rng)
+            line = "\t".join(["forms", sh[0], sh[1], sh[2]] + [hx(src_of(e, w)) for _, e, w in fs])
+            yield Case(line, "shadowed-name", {"pair": f"{sh[0]} shadowed by {sh[3][:40]}", "forms": [a for a, _, _ in fs],
+                                               "exprs": [e for _, e, _ in fs]})
     per = (60 if tier == "quick" else 1200) * boost
     for p in P:
         for _ in range(per if not p.get("special") else max(6, per // 2)):
